@@ -16,3 +16,35 @@ proof! {
         reach!();
     }
 }
+
+fn noop_exec(_v: warp_core::GraphView<'_>, _scope: &NodeId, _d: &mut warp_core::TickDelta) {}
+
+//@ tier=off timeout=900 mem=10 bits=512 unwind=258 fns=warp_core::parallel::shard::partition_into_shards,warp_core::parallel::shard::shard_of
+//@ bounds="two rewrites whose 32-byte scope ids are fully symbolic; 256 virtual shards"
+//@ desc="partitioning routes every rewrite to exactly the shard shard_of(scope) names: nothing is dropped or duplicated, rewrites of one shard keep their input order, every other shard stays empty"
+proof! {
+    fn c02_partition_routes_every_item_once() {
+        use warp_core::parallel::shard::partition_into_shards;
+        let (sa, sb): ([u8; 32], [u8; 32]) = (kani::any(), kani::any());
+        let items = [
+            warp_core::ExecItem::new(noop_exec, NodeId(sa), warp_core::OpOrigin::default()),
+            warp_core::ExecItem::new(noop_exec, NodeId(sb), warp_core::OpOrigin::default()),
+        ];
+        let shards = partition_into_shards(&items);
+        assert!(shards.len() == NUM_SHARDS);
+        let (ha, hb) = (shard_of(&NodeId(sa)), shard_of(&NodeId(sb)));
+        let mut total = 0;
+        let mut i = 0;
+        while i < NUM_SHARDS {
+            let n = shards[i].items.len();
+            total += n;
+            let want = (i == ha) as usize + (i == hb) as usize;
+            assert!(n == want, "a shard holds a rewrite that does not route to it, or misses one that does");
+            i += 1;
+        }
+        assert!(total == 2);
+        assert!(shards[ha].items[0].scope == NodeId(sa), "rewrites of one shard are not in input order");
+        core::mem::forget((shards, items));
+        reach!();
+    }
+}
